@@ -245,7 +245,9 @@ func c16Key(kt string, pub []byte) string {
 	if key != nil {
 		jw = "err"
 		if j, err := jwksupport.JWKFromKey(key); err == nil {
-			if b, err := j.MarshalJSON(); err == nil {
+			// the did:key built from the JWK is the did:key built from the key bytes
+			byJWK, _, e := fingerprint.CreateDIDKeyByJwk(j)
+			if b, err := j.MarshalJSON(); err == nil && e == nil && byJWK == dk {
 				j2 := &jwk.JWK{}
 				if err := j2.UnmarshalJSON(b); err == nil {
 					jw = "differs"
